@@ -80,9 +80,9 @@ func c19ViaBuilder(sess *builder.Session, cfg *configuration.Configuration, tmpl
 	var idx int
 	var p interface{}
 	if withRules {
-		idx, p = ev.Replay(rules.NewRules(b, cfg), log)
+		idx, p = replayAuto(rules.NewRules(b, cfg), log)
 	} else {
-		idx, p = ev.Replay(b, log)
+		idx, p = replayAuto(b, log)
 	}
 	if idx >= 0 {
 		o.Err = "panic at event " + fmt.Sprint(idx) + ": " + ev.PanicString(p)
